@@ -159,6 +159,21 @@ func main() {
 					break
 				}
 			}
+			// near the antimeridian (and anywhere else away from the poles): the closed form with each side folded back
+			// into [-180, 180] by a whole turn - the west side of a circle west of the antimeridian comes back at +180 - x
+			if rd := d / 6378137.0; math.Abs(p[1])+rd*180/math.Pi < 89 {
+				dlon := math.Asin(math.Sin(rd)/math.Cos(p[1]*math.Pi/180)) * 180 / math.Pi
+				west, east := p[0]-dlon, p[0]+dlon
+				if west < -180 {
+					west += 360
+				}
+				if east > 180 {
+					east -= 360
+				}
+				if ab := geo.NewBoundAroundPoint(p, d); math.Abs(ab.Min[0]-west) > 1e-9 || math.Abs(ab.Max[0]-east) > 1e-9 {
+					c.Failf("bound-around", "NewBoundAroundPoint(%v, %v) = %v, the closed form folded into [-180, 180] has west %v and east %v", p, d, ab, west, east)
+				}
+			}
 			small := orb.Bound{Min: p, Max: orb.Point{math.Min(p[0]+0.5, 180), math.Min(p[1]+0.25, 90)}}
 			pad := geo.BoundPad(small, d)
 			if pad.Min[0] > small.Min[0] || pad.Min[1] > small.Min[1] || pad.Max[0] < small.Max[0] || pad.Max[1] < small.Max[1] ||
